@@ -24,6 +24,36 @@ mutual
     | d :: ds => nfD d && nfL ds
 end
 
+/-! ### Python equality of values -/
+
+mutual
+  /-- `a == b` on values of the model (structural, `Atom.pyEq` at the leaves). -/
+  def eqvT : Tmpl → Tmpl → Bool
+    | .const a, v =>
+      match v with
+      | .const b => Atom.pyEq a b
+      | _ => false
+    | .node l kids, v =>
+      match v with
+      | .node l' vs => decide (l = l') && eqvL kids vs
+      | _ => false
+    | .choice tag one k cands distinct sorted, v =>
+      match v with
+      | .choice tag' one' k' vs distinct' sorted' =>
+        decide (tag = tag' ∧ one = one' ∧ k = k' ∧ distinct = distinct' ∧ sorted = sorted') && eqvL cands vs
+      | _ => false
+    | .floatv tag lo hi, v =>
+      match v with
+      | .floatv tag' lo' hi' => decide (tag = tag' ∧ lo = lo' ∧ hi = hi')
+      | _ => false
+  def eqvL : List Tmpl → List Tmpl → Bool
+    | [], vs => vs.isEmpty
+    | t :: ts, vs =>
+      match vs with
+      | [] => false
+      | v :: vs' => eqvT t v && eqvL ts vs'
+end
+
 section
 variable (W : Nat → Bool)
 
